@@ -69,6 +69,21 @@ BOUNDED = [
 ]
 
 
+def _doc_session(text):
+    msgs = [{"jsonrpc": "2.0", "id": 1, "method": "initialize", "params": {}},
+            {"jsonrpc": "2.0", "method": "textDocument/didOpen", "params": {"textDocument": {"uri": "file:///tmp/deep.gdn", "languageId": "garden", "version": 1, "text": text}}},
+            {"jsonrpc": "2.0", "id": 2, "method": "textDocument/hover", "params": {"textDocument": {"uri": "file:///tmp/deep.gdn"}, "position": {"line": 0, "character": 4}}},
+            {"jsonrpc": "2.0", "id": 3, "method": "shutdown"}]
+    oracle = "(lambda got: '' if got == [1, 2, 3] else 'responses carry ids %r; expected exactly 1, 2, 3' % (got,))([o.get('id') for o in jsons(full_out) if 'id' in o and 'method' not in o])"
+    return msgs, oracle
+
+
+for _name, _text in (("moderately_nested_document", common.MODERATE_SOURCES[1]), ("deep_document:nested_parentheses_500", common.DEEP_SOURCES["nested_parentheses_500"])):
+    _m, _o = _doc_session(_text)
+    BOUNDED.append({"name": _name, "kind": "lsp", "props": ["C28"], "input": _m, "n_inputs": 1, "expect": {"py": _o}, "timeout": 120,
+                    "bound": "one LSP session: initialize, didOpen of a document with %s, a hover request, shutdown: the three requests are answered in order" % ("40 nested parentheses" if "moder" in _name else "500 nested parentheses")})
+
+
 def build(tier):
     u = UnitFile("lspmsg")
     u.raw(common.HEADER)
